@@ -107,6 +107,8 @@ struct Report {
   }
   void sample(const std::string& s, size_t cap = 12) { if (samples.size() < cap) samples.push_back(s); }
   void outcome(const std::string& s) { if (outcomes.size() < 100000) outcomes.insert(s); }
+  // a stated bound that was reached with everything below it explored completely (does not make the run non-exhaustive)
+  void bound(const std::string& s) { if (std::find(caps.begin(), caps.end(), s) == caps.end()) caps.push_back(s); }
   void cap(const std::string& s) { if (std::find(caps.begin(), caps.end(), s) == caps.end()) caps.push_back(s); exhaustive = false; }
   void set(const std::string& k, const std::string& raw_json) { extra[k] = raw_json; }
   void setn(const std::string& k, double v) { extra[k] = str(v); }
@@ -409,6 +411,13 @@ struct Ctx {
     fail(check, "got " + str(a) + " expected " + str(b)); return false;
   }
 };
+
+// oracle evaluation: an exception escaping the oracle means a library query threw where the statement requires an answer
+template<class Sys, class State>
+void safe_check(Sys& sys, State& st, Ctx& ctx) {
+  try { sys.check(st, ctx); }
+  catch (const std::exception& e) { ctx.fail("unexpected-exception-in-query", std::string("a query threw: ") + e.what()); }
+}
 
 } // namespace mc
 
